@@ -154,6 +154,8 @@ impl EncCase {
 }
 
 pub fn do_encode(c: &EncCase, want_bitmap: bool) -> EncOut {
+    // for the hang and memory monitors: remember what is about to run
+    crate::ctx::trace_case(|| c.to_case("enc").flat());
     match c.effective_entry() {
         1 => {
             let Some(list) = list_from_spec(&c.list) else { return EncOut::BadSpec };
